@@ -48,6 +48,7 @@ def gen_spec(r: random.Random, flavor: str, **over) -> dict:
         # the callers' trace callback awaits (async flavours): every trace boundary of the library becomes a suspension
         # point at which the other callers run
         "trace_yields": r.random() < 0.25,
+        "unsolicited": False,
     }
     if proto == "h2":
         spec["proxy"] = r.choice([None, None, "tun", "socks"])
@@ -100,6 +101,8 @@ class Workload:
             size = min(rr.choice([0, 10, 500, 5000, 40000]), max_body)
             body = b"echo:%b:tr%d:n%d:%b:" % (tok, req.tr, req.ordinal, origin.name.encode()) + (b"%x" % zlib.crc32(tok)) * (size // 8)
             mode = rr.choice(SERVER_MODES_H1) if (modes and req.proto == "h1") else "keepalive"
+            if mode == "keepalive" and req.proto == "h1" and modes and spec.get("unsolicited") and rr.random() < 0.15:
+                mode = "unsolicited"
             delay = base_delay * rr.choice([0, 1, 1, 3])
             seen = [v for k, v in getattr(req, "h2_headers", None) or [] if k == b":authority"] or req.header(b"host")
             hs = [(b"X-Echo", tok), (b"X-Mode", mode.encode()), (b"X-Host-Seen", b",".join(seen))]
@@ -113,6 +116,11 @@ class Workload:
                 return Resp(200, b"OK", hs, body, framing="close", http10=True, delay=delay)
             if mode == "close-delimited":
                 return Resp(200, b"OK", hs, body, framing="close", delay=delay)
+            if mode == "unsolicited":
+                # a broken (or hostile) server: a complete keep-alive response, and behind it - in the same segment - a second
+                # response that nobody asked for. Whoever uses the connection next must not be handed it as their answer
+                return Resp(200, b"OK", hs, body, delay=delay,
+                            after=b"HTTP/1.1 200 OK\r\nContent-Length: 6\r\nX-Echo: nobody\r\n\r\nstale!")
             return Resp(200, b"OK", hs, body, delay=delay, body_delay=delay / 2 if delay else 0.0)
 
         h2s = {"data_chunk": 4000}
